@@ -6,7 +6,8 @@
 (* behind it in the same segment, or in a later segment before the          *)
 (* handshake), completes the handshake, and then - inside the TLS session   *)
 (* or in plaintext after 'N' - sends a startup packet and a small session,  *)
-(* or a second SSLRequest, or a CancelRequest.                              *)
+(* or a second SSLRequest, a GSSENCRequest (before or after), or a          *)
+(* CancelRequest.                                                           *)
 (***************************************************************************)
 EXTENDS PgConn, Export
 
@@ -32,6 +33,7 @@ MCSend ==
     /\ Quiet /\ phase # "closed" /\ Len(hist) < 7
     /\ \/ /\ phase = "startup" /\ ssl \in {"none", "refused", "tls"} /\ NSent("SSLRequest") < 2
           /\ \E st \in (IF cfg.tls = "cert" /\ ssl = "none" THEN BOOLEAN ELSE {FALSE}) : Push([t |-> "SSLRequest", stuffed |-> st])
+       \/ /\ phase = "startup" /\ ssl \in {"none", "refused", "tls"} /\ NSent("GSSENC") = 0 /\ Push([t |-> "GSSENC"])
        \/ /\ phase = "startup" /\ ssl = "tlsp" /\ NSent("Stuffed") = 0 /\ Push([t |-> "Stuffed"])
        \/ /\ phase = "startup" /\ ssl # "tlsp" /\ Push(StartupMsg)
        \/ /\ phase = "startup" /\ ssl # "tlsp" /\ Push([t |-> "Cancel"])
